@@ -356,7 +356,16 @@ func (e *Env) evalBinary(n EBinary) Val {
 		case "<==>":
 			el, er = e.nopol(), e.nopol()
 		}
-		l, r := el.eval(n.L), er.eval(n.R)
+		l := el.eval(n.L)
+		// a guard that is decided statically (typeof of a value whose dynamic type is known at the call site) spares
+		// the evaluation of what it guards - and the quantifiers that would be recorded for it
+		if l.Sort == SBool && ((n.Op == "==>" && l.T == "false") || (n.Op == "||" && l.T == "true")) {
+			return specVal("true", SBool)
+		}
+		if l.Sort == SBool && n.Op == "&&" && l.T == "false" {
+			return specVal("false", SBool)
+		}
+		r := er.eval(n.R)
 		if l.Sort != SBool || r.Sort != SBool {
 			e.fail("boolean operator %s on non-boolean in %s", n.Op, exprString(n))
 		}
@@ -383,6 +392,9 @@ func (e *Env) evalBinary(n EBinary) Val {
 				e.fail("type compared with non-typeof in %s", exprString(n))
 			}
 			t = eq(l.T, intLit(int64(u.P.tagOf(r.Typ))))
+			if isIntLit(l.T) && l.T != intLit(int64(u.P.tagOf(r.Typ))) {
+				t = "false"
+			}
 		default:
 			l = e.coerceNil(l, r)
 			r = e.coerceNil(r, l)
@@ -669,6 +681,9 @@ func (e *Env) evalCall(n ECall) Val {
 		v := e.eval(n.Args[0])
 		if v.Sort != SIface {
 			e.fail("typeof of non-interface")
+		}
+		if v.DynTyp != nil {
+			return specVal(intLit(int64(u.P.tagOf(v.DynTyp))), SInt)
 		}
 		return specVal("(tag "+v.T+")", SInt)
 	case "fresh":
@@ -1081,4 +1096,16 @@ func (e *Env) groundSubFact(t Term) {
 		}
 	}
 	e.u.subFact(t)
+}
+
+func isIntLit(t Term) bool {
+	if t == "" {
+		return false
+	}
+	for _, c := range t {
+		if c < '0' || c > '9' {
+			return false
+		}
+	}
+	return true
 }
